@@ -83,7 +83,7 @@ AddCall == /\ phase = "build" /\ Len(prog) < NC
            /\ \E c \in CallSpec : OKCall(prog, c) /\ prog' = Append(prog, c)
            /\ UNCHANGED <<todo, last, edges, phase>>
 Start == /\ phase = "build" /\ Len(prog) = NC /\ Launches # {}
-         /\ StrictSerial(R) /\ SyncCausal(R)
+         /\ StrictSerial(R) = TRUE /\ SyncCausal(R) = TRUE      \* values, so that TLC does not split the action on their disjunctions
          /\ phase' = "kernels" /\ todo' = 1..NC /\ UNCHANGED <<prog, last, edges>>
 
 KernelRow(i) ==
